@@ -281,6 +281,7 @@ type GenOpt struct {
 	Edge       bool
 	Spec       []GField
 	Naming     string
+	Fwd        bool
 	QF         bool
 	CBS        int
 	Over       bool // error stream: one uint64 with the high bit set
@@ -296,7 +297,7 @@ func genInput(r *lib.Rng, id int, g GenOpt) Input {
 	}
 	curNaming = g.Naming
 	d := descOf(g.Type)
-	in := Input{Type: g.Type, Spec: g.Spec, Naming: g.Naming, QF: g.QF, CBS: g.CBS, NoRet: g.NoRet, Op: g.Op, Pre: lib.Pick(r, []int{0, 0, 3, 8})}
+	in := Input{Type: g.Type, Spec: g.Spec, Naming: g.Naming, QF: g.QF, CBS: g.CBS, Fwd: g.Fwd, NoRet: g.NoRet, Op: g.Op, Pre: lib.Pick(r, []int{0, 0, 3, 8})}
 	if g.Op == "batches" {
 		in.BS = r.Range(1, 4)
 		if g.Edge {
@@ -529,7 +530,7 @@ func shape(in Input) string {
 			tn += "," + g.Go + ":" + g.Tag
 		}
 	}
-	fmt.Fprintf(&sb, "%s|%s|qf%v|cbs%d|noret=%v|%s%d|pre%d|n%d|%s|", tn, in.Naming, in.QF, in.CBS, in.NoRet, in.Op, in.BS, in.Pre, len(in.Recs), in.MapKeys)
+	fmt.Fprintf(&sb, "%s|%s|fwd%v|qf%v|cbs%d|noret=%v|%s%d|pre%d|n%d|%s|", tn, in.Naming, in.Fwd, in.QF, in.CBS, in.NoRet, in.Op, in.BS, in.Pre, len(in.Recs), in.MapKeys)
 	// per record: which columns are zero / nil / absent (the value classes the code branches on)
 	for _, r := range in.Recs {
 		for j, f := range d.Fields {
